@@ -171,6 +171,61 @@ fn obs<F: FnOnce() -> bool>(f: F) -> J {
     }
 }
 
+/// Is a document accepted completely and does it hold exactly this character where it was written?
+fn char_in_role(role: &str, c: char) -> bool {
+    use xml_dom::{CharacterData, Element, ProcessingInstruction};
+    let text = match role {
+        "text" => format!("<r>a{}b</r>", c),
+        "attr" => format!("<r x=\"a{}b\"/>", c),
+        "comment" => format!("<r><!--a{}b--></r>", c),
+        "pi" => format!("<r><?t a{}b?></r>", c),
+        "cdata" => format!("<r><![CDATA[a{}b]]></r>", c),
+        _ => return false,
+    };
+    let want = format!("a{}b", c);
+    // white space is normalized in attribute values (3.3.3) and line ends everywhere (2.11): only acceptance is
+    // asked for those characters
+    let lenient = matches!(c, '\t' | '\n' | '\r');
+    match xml_dom::XmlDocument::from_raw(&text) {
+        Ok((rest, doc)) if rest.is_empty() => {
+            let e = match doc.document_element() {
+                Ok(e) => e,
+                Err(_) => return false,
+            };
+            let got = match role {
+                "attr" => Some(e.get_attribute("x")),
+                _ => match e.first_child() {
+                    Some(xml_dom::XmlNode::Text(t)) => t.data().ok(),
+                    Some(xml_dom::XmlNode::Comment(t)) => t.data().ok(),
+                    Some(xml_dom::XmlNode::CData(t)) => t.data().ok(),
+                    Some(xml_dom::XmlNode::PI(p)) => Some(p.data()),
+                    _ => None,
+                },
+            };
+            lenient || got.as_deref() == Some(want.as_str())
+        }
+        _ => false,
+    }
+}
+
+/// C18: the class Char as the parser applies it in each construct that is made of Chars: the set of code points
+/// accepted (and preserved) as character data, in an attribute value, a comment, PI data and a CDATA section,
+/// as maximal intervals - exhaustive over all scalar values, like `classes`.
+pub fn charroles(args: &[String]) -> i32 {
+    let out = arg_value(args, "--out").unwrap_or("-");
+    let mut w = open_out(out);
+    for role in ["text", "attr", "comment", "pi", "cdata"] {
+        let res = guarded(|| intervals(|c| guarded(|| char_in_role(role, c)).unwrap_or(false)));
+        let rec = match res {
+            Ok(iv) => json!({"event": "class", "cls": format!("char@{}", role),
+                             "ivs": iv.iter().map(|(a, b)| json!([a, b])).collect::<Vec<_>>()}),
+            Err(p) => json!({"event": "class", "cls": format!("char@{}", role), "panic": p, "ivs": []}),
+        };
+        writeln!(w, "{}", rec).unwrap();
+    }
+    0
+}
+
 pub fn names(args: &[String]) -> i32 {
     let inp = arg_value(args, "--in").unwrap_or("-");
     let out = arg_value(args, "--out").unwrap_or("-");
